@@ -12,3 +12,4 @@ import CruxVerif.Props.C10
 #print axioms Props.C10.C10_full_false
 #print axioms Props.C10.C10_partial
 #print axioms Props.C10.C10_oracle_sound
+#print axioms Props.C10.typegen_oracle_sound
